@@ -61,6 +61,12 @@ pub fn c10(tier: Tier) -> ! {
                     }
                     cases.push(C10Case { group: g, shape_args: sa.iter().map(|s| s.to_string()).collect(), spec: spec.clone(), potential: pot, opt: set.iter().map(|s| s.to_string()).collect(), kmax });
                 }
+                // a hot, short Lennard-Jones run: replicas end with negative as well as positive
+                // scores, so the selection has to order across zero
+                if *pot == "LJ" && (sa[0] == "circle" || sa.len() == 1 && sa[0] == "trimer") {
+                    let set = ["--kt-start", "50", "--steps", "20", "--max-step-size", "0.05", "--kt-finish", "0.001"];
+                    cases.push(C10Case { group: g, shape_args: sa.iter().map(|s| s.to_string()).collect(), spec: spec.clone(), potential: pot, opt: set.iter().map(|s| s.to_string()).collect(), kmax: kmax.max(5) });
+                }
             }
         }
     }
@@ -182,7 +188,7 @@ pub fn c10(tier: Tier) -> ! {
     run.set("structures_written_and_checked", written);
     run.set("combinations_where_more_replicas_improved_the_score", improved);
     run.set("exhaustive", true);
-    run.set("rule", "complete product through the real release binary: 7 groups x 6 shape subcommands (polygon 3/4/6, circle, default trimer, trimer -r 0.7 -a 180 -d 1.5) x 2 potentials (polygon+LJ must be a reported error) x replications 1..3 (quick) / 1..5 (thorough) x 1 / 2 step settings. Non-trivial = invocations that wrote a structure; each is checked for label, family, shape, symmetry list (independent table), copy count, logged score = score of the file, and score(k) >= score(k-1)");
+    run.set("rule", "complete product through the real release binary: 7 groups x 6 shape subcommands (polygon 3/4/6, circle, default trimer, trimer -r 0.7 -a 180 -d 1.5) x 2 potentials (polygon+LJ must be a reported error) x replications 1..3 (quick) / 1..5 (thorough) x step settings (a short one, a 2000-step one in which the last stage reorders replicas, and for LJ circle/trimer a hot 20-step one whose replicas end on both sides of zero). Non-trivial = invocations that wrote a structure; each is checked for label, family, shape, symmetry list (independent table), copy count, logged score = score of the file, and score(k) >= score(k-1)");
     run.require(written > 50, "too few structures written");
     run.require(improved > 0, "adding replicas never improved a score: the monotonicity check would be vacuous");
     run.finish()
